@@ -61,14 +61,17 @@ pub trait OperandHandler {
         expand_arrays: ExpandArrays,
     ) {
         match expr {
-            Expr::Lit(_) => {
-                if ident_kind == IdentKind::Spread {
-                    // ...'literal' must reach the hook spread as well, exactly like the call receives it
-                    arguments.push(ident_provider.get_expr_or_spread(expr, ident_kind))
-                } else {
-                    Self::replace_literals(expr, arguments)
-                }
-            }
+            // ...'literal' is materialised once like any other spread (a non iterable literal throws there,
+            // before the following arguments are evaluated) and reaches the hook spread as well
+            Expr::Lit(_) if ident_kind == IdentKind::Spread => Self::replace_default(
+                expr,
+                assignations,
+                arguments,
+                span,
+                ident_provider,
+                ident_kind,
+            ),
+            Expr::Lit(_) => Self::replace_literals(expr, arguments),
             Expr::Ident(_) => {
                 if ident_mode == IdentMode::Replace {
                     expr.map_with_mut(|op| {
